@@ -5,6 +5,10 @@
 //     cross-checked against the public parser.ParseProgram(..).String() whenever that succeeds)
 //     versus the model's program_string on the same tree dump, byte for byte;
 //   - num / quote / fregex: NumExpr.String(), strconv.Quote, formatRegex on edge and random values;
+//   - lexas: the model's claim "the printed text lexes back to the printer's own token list"
+//     (lex_as, the conclusion of theorem C20_render_lex) versus the lexing-defect features of the tree;
+//   - fits: every expression of every tree the parser builds satisfies the hypothesis of the
+//     theorems (C04's fits, decided by the extracted fitsb), in its context;
 //   - lex / regex: lexer.Scan until EOF and lexer.ScanRegex on the printed texts and on hostile
 //     texts versus the model's scan1 / scan_regex.
 //
@@ -208,7 +212,44 @@ func endsInCond(e *sx) bool {
 	return false
 }
 
-func classify(tree *sx) string {
+// the two shapes the parser builds that C04's `fits` does not cover (C04 level_note): the lvalue
+// back-tracking of `1 && x = 1`, and a concatenation whose right operand begins with ++ / --
+func firstIsIncr(e *sx) bool {
+	switch e.head() {
+	case "incr":
+		return e.kids[2].atom == "1"
+	case "binary":
+		return firstIsIncr(e.kids[2])
+	case "cond":
+		return firstIsIncr(e.kids[1])
+	case "in":
+		return len(e.kids) == 3 && firstIsIncr(e.kids[2])
+	}
+	return false
+}
+
+func c04Excluded(tree *sx) bool {
+	found := false
+	walk(tree, func(n *sx) {
+		if n.head() == "binary" && len(n.kids) == 4 {
+			r := n.kids[3]
+			switch n.kids[1].atom {
+			case "and", "or", "match", "notmatch", "eq", "ne", "lt", "le", "ge", "gt":
+				if r.head() == "assign" || r.head() == "augassign" {
+					found = true
+				}
+			case "concat":
+				if firstIsIncr(r) {
+					found = true
+				}
+			}
+		}
+	})
+	return found
+}
+
+// every known-defect feature of the tree
+func features(tree *sx) map[string]bool {
 	found := map[string]bool{}
 	var inStmts func(n *sx, inside bool)
 	inStmts = func(n *sx, inside bool) {
@@ -273,6 +314,11 @@ func classify(tree *sx) string {
 		}
 	}
 	inStmts(tree, false)
+	return found
+}
+
+func classify(tree *sx) string {
+	found := features(tree)
 	for _, c := range []string{clsInf, clsBigU, clsUHex, clsReNL, clsMultiGT, clsMultiCd, clsUnary, clsNumExp} {
 		if found[c] {
 			return c
@@ -494,6 +540,8 @@ func main() {
 	}
 	var pends []pend
 	var lexTexts [][]byte
+	var lexasReqs, lexasWant, lexasSrc, fitsReqs []string
+	var fitsMulti, fitsExcl []bool
 	accepted := 0
 	for _, c := range cases {
 		rep.Count("gen:" + c.kind)
@@ -518,6 +566,19 @@ func main() {
 		}
 		reqs = append(reqs, "print "+res.dump)
 		pends = append(pends, pend{c, res.printed})
+		if t1, err := parseSX(res.dump); err == nil {
+			f := features(t1)
+			want := "1"
+			if f[clsUnary] || f[clsUHex] || f[clsBigU] || f[clsInf] {
+				want = "0"
+			}
+			lexasReqs = append(lexasReqs, "lexas "+res.dump)
+			lexasWant = append(lexasWant, want)
+			lexasSrc = append(lexasSrc, string(c.src))
+			fitsReqs = append(fitsReqs, "fits "+res.dump)
+			fitsMulti = append(fitsMulti, f[clsMultiGT])
+			fitsExcl = append(fitsExcl, c04Excluded(t1))
+		}
 		rep.Distinct(string(c.src))
 		if len(lexTexts) < 4000 {
 			lexTexts = append(lexTexts, []byte(res.printed))
@@ -546,6 +607,52 @@ func main() {
 			rep.Mismatch(hx.Mismatch{Class: "print:" + p.c.kind, Input: string(p.c.src), Impl: p.printed, Model: got})
 		} else if i%400 == 0 {
 			rep.Sample(map[string]any{"source": string(p.c.src), "printed": p.printed})
+		}
+	}
+
+	// ---- does the model's text lex back to the model's tokens (lex_as), and does that agree with
+	// the lexing-defect features of the tree: the link between the theorems' guard and the implementation
+	lexasAns, err := hx.ModelEval(o.ModelRun, lexasReqs)
+	if err != nil {
+		rep.HarnessError("%v", err)
+		rep.Write(o.Out)
+		os.Exit(2)
+	}
+	for i, a := range lexasAns {
+		rep.CorrEvals++
+		rep.Count("lexas:" + a)
+		if a != lexasWant[i] {
+			rep.Mismatch(hx.Mismatch{Class: "lexas", Input: lexasSrc[i], Impl: lexasWant[i], Model: a,
+				Note: "impl = 0 iff the tree has a lexing-defect feature (unary sign adjacency, \\u before a hex digit, \\U, +Inf); model = lex_as (toks pieces) (render pieces)"})
+		}
+	}
+
+	// ---- is every expression the parser built a writing that respects C04's table (the hypothesis
+	// `fits` of the theorems): decided by the extracted fitsb on the tree dump
+	fitsAns, err := hx.ModelEval(o.ModelRun, fitsReqs)
+	if err != nil {
+		rep.HarnessError("%v", err)
+		rep.Write(o.Out)
+		os.Exit(2)
+	}
+	for i, a := range fitsAns {
+		rep.CorrEvals++
+		var ok, fail, out, afo int
+		if _, err := fmt.Sscanf(a, "ok=%d fail=%d out=%d argfalseonly=%d", &ok, &fail, &out, &afo); err != nil {
+			rep.HarnessError("modelrun fits: %s on %q", a, lexasSrc[i])
+			continue
+		}
+		rep.Hist["fits:expressions-in-fragment-that-fit"] += ok
+		rep.Hist["fits:expressions-outside-fragment"] += out
+		rep.Hist["fits:print-arguments-fitting-expr()-only"] += afo
+		rep.Hist["fits:expressions-in-fragment-that-do-not-fit (C04 exclusions: lvalue back-tracking, concatenation before ++/--)"] += fail
+		if fail > 0 && !fitsExcl[i] {
+			rep.Mismatch(hx.Mismatch{Class: "fits", Input: lexasSrc[i], Impl: "a tree built by the parser", Model: a,
+				Note: "the model says the parser's own tree is not a writing that respects the table (fitsb = false) and it is neither of the two shapes C04 excludes"})
+		}
+		if afo > 0 && !fitsMulti[i] {
+			rep.Mismatch(hx.Mismatch{Class: "fits-print-argument", Input: lexasSrc[i], Impl: fmt.Sprint("exposed > or | getline in a print argument: ", fitsMulti[i]), Model: a,
+				Note: "a print argument fits expr() but not printExpr() iff it came out of a parenthesised list with an exposed > (the class of F-C20-2)"})
 		}
 	}
 
